@@ -13,6 +13,8 @@ def run(ctx):
     ctx.rule = ("operator suites as for C05 + mesh suite (cell volumes); impl_probe: volume-weighted sums of every flux-form term for fields "
                 "supported away from the boundary, closed-system solves (implicit, explicit, periodic / no-flux)")
     ctx.prove("C01")
+    from suites import symsuite
+    run_suites(ctx, ["symbolic"], runner=symsuite.run_suite, relevant=symsuite.relevant_for(['diffusion', 'central', 'divergence', 'upwind']))
     from suites import meshsuite
     run_suites(ctx, ["mesh"], runner=meshsuite.run_suite)
     run_suites(ctx, SUITES[1:], relevant=REL)
